@@ -1,0 +1,7 @@
+//go:build !verif
+
+// Package verifhook is a seam for external verification machinery.  Without
+// the build tag `verif' Tick is an empty function that the compiler removes.
+package verifhook
+
+func Tick(site string) {}
